@@ -9,6 +9,7 @@
 //	R3  net.Listen( / NewGrpcClient( / grpc.UnaryInterceptor( / grpc.StreamInterceptor(
 //	    in internal/net            -> verif* shims (added file zz_verif.go)
 //	R5  simrt.Yield(site) before channel sends / selects in statement position
+//	R8  os.Stdout -> verifStdout()   in common/log: loggers built with no explicit output are captured too
 //	R7  os.Create( / os.OpenFile( / os.Rename( -> simrt.Create( / simrt.OpenFile( / simrt.Rename(  and
 //	    toml.NewEncoder(w) -> toml.NewEncoder(simrt.W(w))   in common/key and internal/fs: the file-level
 //	    steps of writing a key, group or share file become crash points
@@ -87,7 +88,7 @@ func main() {
 		inR1 := under(dir, r1dirs)
 		inR5 := under(dir, r5dirs)
 		isNet := dir == "internal/net" || dir == "internal/metrics"
-		isFiles := dir == "common/key" || dir == "internal/fs"
+		isFiles := dir == "common/key" || dir == "internal/fs" || dir == "common/log"
 		if !inR1 && !inR5 && !isNet && !isFiles {
 			return nil
 		}
@@ -264,6 +265,13 @@ func transform(path, rel string, src []byte, simsyncPath string, r1, r2, r3, r5 
 	ast.Inspect(f, func(n ast.Node) bool {
 		switch x := n.(type) {
 		case *ast.SelectorExpr:
+			if strings.HasPrefix(rel, "common/log/") {
+				if sel, ok := isSel(x, osName, "Stdout"); ok {
+					edits = append(edits, edit{off(sel.Pos()), off(sel.End()) - off(sel.Pos()), "verifStdout()"})
+					keep[osName] = "var _ = %s.Getpid"
+					hits["R8.Stdout"]++
+				}
+			}
 			if r1 && syncName != "" {
 				for _, typ := range []string{"Mutex", "RWMutex", "Once"} {
 					if s, ok := isSel(x, syncName, typ); ok {
